@@ -101,6 +101,8 @@ macro_rules! atomic_op {
             // 6. NOTE: The above check is not redundant with the check in ValidateIntegerTypedArray because the call
             //    to ToBigInt or ToIntegerOrInfinity on the preceding lines can have arbitrary side effects, which could
             //    cause the buffer to become detached.
+            // The coercions above can run arbitrary code that shrinks or detaches the buffer.
+            let buf_len = revalidate_atomic_access(array, &access)?;
             let ta = ta.borrow();
             let ta = ta.data();
             let mut buffer = ta.viewed_array_buffer().as_buffer_mut();
@@ -193,6 +195,8 @@ impl Atomics {
         let access = validate_atomic_access(&ta, buf_len, index, context)?;
 
         // 2. Perform ? RevalidateAtomicAccess(typedArray, indexedPosition).
+        // The coercions above can run arbitrary code that shrinks or detaches the buffer.
+        let buf_len = revalidate_atomic_access(array, &access)?;
         let ta = ta.borrow();
         let ta = ta.data();
         let buffer = ta.viewed_array_buffer().as_buffer();
@@ -231,16 +235,20 @@ impl Atomics {
             value.to_bigint(context)?.into()
         } else {
             // 3. Otherwise, let v be 𝔽(? ToIntegerOrInfinity(value)).
-            match value.to_integer_or_infinity(context)? {
-                IntegerOrInfinity::PositiveInfinity => f64::INFINITY,
-                IntegerOrInfinity::Integer(i) => i as f64,
-                IntegerOrInfinity::NegativeInfinity => f64::NEG_INFINITY,
+            //    NOTE: computed on the `f64` directly; `IntegerOrInfinity` clamps to the `i64` range.
+            let number = value.to_number(context)?;
+            if number.is_nan() {
+                0.0
+            } else {
+                number.trunc() + 0.0
             }
             .into()
         };
         let value = access.kind.get_element(&converted, context)?;
 
         // 4. Perform ? RevalidateAtomicAccess(typedArray, indexedPosition).
+        // The coercions above can run arbitrary code that shrinks or detaches the buffer.
+        let buf_len = revalidate_atomic_access(array, &access)?;
         let ta = ta.borrow();
         let ta = ta.data();
         let mut buffer = ta.viewed_array_buffer().as_buffer_mut();
@@ -289,6 +297,8 @@ impl Atomics {
         let rep = access.kind.get_element(replacement, context)?.to_bits();
 
         // 6. Perform ? RevalidateAtomicAccess(typedArray, indexedPosition).
+        // The coercions above can run arbitrary code that shrinks or detaches the buffer.
+        let buf_len = revalidate_atomic_access(array, &access)?;
         let ta = ta.borrow();
         let ta = ta.data();
         let mut buffer = ta.viewed_array_buffer().as_buffer_mut();
@@ -703,6 +713,29 @@ fn validate_atomic_access(
         byte_offset: offset,
         kind,
     })
+}
+
+/// [`RevalidateAtomicAccess ( typedArray, byteIndexInBuffer )`][spec]
+///
+/// Returns the current byte length of the viewed buffer.
+///
+/// [spec]: https://tc39.es/ecma262/#sec-revalidateatomicaccess
+fn revalidate_atomic_access(array: &JsValue, access: &AtomicAccess) -> JsResult<usize> {
+    // 1. Let taRecord be MakeTypedArrayWithBufferWitnessRecord(typedArray, unordered).
+    // 2. NOTE: Bounds checking is not a synchronizing operation when typedArray's backing buffer is a growable SharedArrayBuffer.
+    // 3. If IsTypedArrayOutOfBounds(taRecord) is true, throw a TypeError exception.
+    let (_, buf_len) = TypedArray::validate(array, Ordering::Relaxed)?;
+
+    // 4. Assert: byteIndexInBuffer ≥ typedArray.[[ByteOffset]].
+    // 5. If byteIndexInBuffer ≥ taRecord.[[CachedBufferByteLength]], throw a RangeError exception.
+    if access.byte_offset + access.kind.element_size() as usize > buf_len {
+        return Err(JsNativeError::range()
+            .with_message("index for typed array outside of bounds")
+            .into());
+    }
+
+    // 6. Return unused.
+    Ok(buf_len)
 }
 
 #[cfg(test)]
